@@ -15,16 +15,34 @@ RULE = ("cases: TruncatedLevyMeasure.integrate(a,b) with [a,b] inside / outside 
         "create_from_fixed_nb_of_points / CTMCCredit, 3..60 states per side, refined 0..4 times, step measures with 1..8 pieces whose "
         "support covers, exceeds or lies inside the grid (truncation active / zero-rate states); compared exactly: create_q_vector, "
         "compute_intensity_of_jumps, MarkovChainProcess.intensity_of_jumps, and (relative 2^-50) the inversion sampler's "
-        "probability_to_jump_to_state for every state; second stream: HEM/Merton/VG/CGMY on all six grid types against an independent "
-        "quadrature of the model's density per cell (tolerance).  non-trivial = distinct chain with >= 2 states on a side")
-MODELLED = ["numpy arrays as lists of Q, np.zeros/enumerate loop of create_q_vector, itertools.product of the 3 intervals (dimension 1)",
+        "probability_to_jump_to_state for every state; RE-USE stream: one grid OBJECT used, refined in place, used again (1..3 times), "
+        "directly and through a real CouplingMarkovChain.next_level, with INVERSION / HUFFMANNTREE / BINARYSEARCHTREE / "
+        "BINARYSEARCHTREEADAPTED1D (exact q-vector and intensity per level; inversion probabilities and Huffman leaves vs the cell mass); "
+        "copula chains in dimension 2 AND 3 on density-table Levy copulas through the real MarkovChainLevyCopula on grids with DIFFERENT "
+        "axes (CTMCGrid on independently drawn admissible axes; the real CTMCCredit with a different level_a per name, symmetric or "
+        "one-sided), fresh / refined before use / used-refined in place-used: intensity, the 3^d-1 boxes, LevyCopulaModel.mass of EVERY "
+        "non-origin cell (cell from the grid's own n-d left_point/right_point/middle) exactly against Model/Chain.v / Model/Chain3d.v, "
+        "sampler probability of every state; second stream: HEM/Merton/VG/CGMY on all six grid types (probability-step grids at level 0 "
+        "AND, same object refined in place, level 1) against an independent quadrature of the model's density per cell (tolerance).  "
+        "non-trivial = distinct chain with >= 2 states on a side")
+MODELLED = ["numpy arrays as lists of Q, np.zeros/enumerate loop of create_q_vector, itertools.product of the 3 intervals per dimension "
+            "(dimension 1, 2, 3: intensity1 / intensity2 / intensity3, the 3^d-1 boxes in itertools.product order)",
             "LevyMeasure.integrate as an abstract additive non-negative interval function `mass` over Q (Section Measure); the "
             "concrete closed forms of HEM/Merton/VG/CGMY are C09's business and are exercised here with a tolerance only",
-            "copula chains (dimension 2, 3): Model/Chain.v defines intensity2/q_entry2 but no theorem is claimed; oracle only"]
+            "copula chains: LevyCopulaModel.mass as an abstract box mass `mass2` / `mass3` additive per coordinate and non-negative on "
+            "boxes avoiding the origin (Sections Measure2d / Measure3d); discharged (all boxes) for the harness's density tables "
+            "(C01_table_mass3_is_a_measure, C01_table_chain_3d); for Clayton / real margins: oracle with tolerance only",
+            "n-d right_point: the implementation clamps every axis with len(axes[0]) (spatial.py FIXME), the model with the axis' own "
+            "length; equal for axes of equal length, the only ones the library's constructors build and the correspondence drives",
+            "samplers other than INVERSION: only the rates they are built from (create_q_vector on the grid object) and, for Huffman, "
+            "the leaf probabilities are observed here; their sampling law is C02's business"]
 ASSUMPTIONS = ["mass a b = nu([a,b]) is additive and non-negative ON INTERVALS NOT CONTAINING 0 (finite for every Levy measure, also VG/CGMY) "
                "and respects == : hypotheses of Section Measure; discharged for the harness's step measures by "
                "C01_step_mass_is_a_measure; for the model families they are what C09 is about, but C09 is over R and is NOT formally "
                "composed with these Q theorems",
+               "mass2 / mass3 (LevyCopulaModel.mass) additive under a split of one coordinate interval, non-negative and ==-respecting "
+               "on boxes avoiding the origin: hypotheses of Sections Measure2d / Measure3d; discharged for 3-d density tables by "
+               "C01_table_mass3_is_a_measure (C12 is about the real copulas; not formally composed)",
                "grid.middle lies strictly inside a gap, middle(x,x)=x at the two (non-zero) end points and respects == (proved only for "
                "the arithmetic mean; for the probability-step grid checked by the oracle per state)"]
 THEOREM_NOTES = {
@@ -33,20 +51,31 @@ THEOREM_NOTES = {
                      "closed forms needs the same proof replayed over R (the proofs use only field/order reasoning: lra, induction)",
     "C01_sum_rates_is_intensity_2d": "proved for dimension 2 (any two admissible axes sharing the origin index; rectangle mass additive per "
                                      "coordinate and non-negative on boxes avoiding the origin), with C01_cells_tile_2d and C01_rates_nonneg_2d; "
-                                     "tied by the exact group chain2d on density-table copulas; dimension 3 not proved (oracle only)",
+                                     "tied by the exact groups chain2d (equal axes) and chain2d_axes (different axes, CTMCCredit with different "
+                                     "thresholds, grid objects refined in place) on density-table copulas",
+    "C01_sum_rates_is_intensity_3d": "proved for dimension 3 (any three admissible axes of any lengths sharing the origin index; box mass "
+                                     "additive per coordinate on boxes avoiding the origin), with C01_cells_tile_3d and C01_rates_nonneg_3d; "
+                                     "C01_table_chain_3d is the instance with NO mass hypothesis left (3-d density tables, arithmetic-mean "
+                                     "middle); tied by the exact group chain3d through the real MarkovChainLevyCopula / _mass_3d. Dimension "
+                                     "> 3 (_mass_nd) is not modelled",
 }
-LEVEL_TEXT = ("Proof: 14 Coq theorems (closed under the global context): for every admissible axis of any length, any middle function "
+LEVEL_TEXT = ("Proof: 20 Coq theorems/examples (closed under the global context): for every admissible axis of any length, any middle function "
               "with the stated properties and any interval mass that is additive and non-negative away from the origin, the cells of the non-origin states tile "
               "[x_0,x_n] minus the central cell with shared end points and no overlap, every state lies in its cell, every rate is "
               ">= 0, and the sum of create_q_vector equals compute_intensity_of_jumps (telescoping); the truncated measure is the mass "
-              "of the intersection and is again additive/non-negative, so the same holds for what MarkovChainProcess builds; "
+              "of the intersection and is again additive/non-negative, so the same holds for what MarkovChainProcess builds; the same "
+              "three statements (tiling, non-negativity, sum of all rates = the 3^d-1 boxes) for the product grids of copula chains in "
+              "dimension 2 and 3 on any admissible axes sharing the origin index, for any box mass additive per coordinate away from the "
+              "origin, and with no mass hypothesis at all for 3-d density tables; "
               "_truncated_interval is re-translated from the source on every run. Tied to /repo by exact vm_compute correspondence "
-              "on dyadic step-measure chains. Partial: dimension 2/3 (copula) identity and the concrete model families are covered "
-              "by the oracle with tolerance, not by theorems.")
+              "on dyadic step-measure chains (incl. grid objects refined in place, CouplingMarkovChain.next_level, non-INVERSION sampler "
+              "paths) and on 2-d/3-d density-table copula chains with unequal axes. Partial: the concrete model families and the "
+              "real copulas (Clayton) are covered by the oracle with tolerance, not by theorems; the probability-step middle is not a "
+              "proved instance of `mid`.")
 LEVEL_NOTE = ("Trusted: Coq kernel + vm_compute; py2coq; floats modelled as Q (exact on dyadic inputs); the Section hypotheses on `mass` "
-              "(C09) and `mid`.")
-TECHNIQUE = "Coq proof over Q (telescoping induction, lra) inside Section Measure + py2coq for the truncation + exact vm_compute correspondence on StepMeasure chains"
-
+              "(C09), `mass2`/`mass3` (C12) and `mid`.")
+TECHNIQUE = ("Coq proof over Q (telescoping induction axis by axis, lra) inside Sections Measure / Measure2d / Measure3d + py2coq for the "
+             "truncation + exact vm_compute correspondence on StepMeasure chains and 2-d/3-d density-table copula chains")
 
 def ps_lit(nu):
     return nu.coq()
@@ -195,6 +224,9 @@ def correspond(res):
             p_cases.append(f"({ps_lit(nu)}, {axis_lit(grid.axes[0])}, {natlit(o)}, {qlit(float(lam))}, "
                            f"{lst([f'({natlit(k)}, {qlit(p)})' for k, p in ps_])})")
 
+    # ---- one grid object: use -> refine in place -> use (directly and through CouplingMarkovChain.next_level), all sampler paths
+    _reuse_stream_1d(res, rng, viol, q_cases, 30 if not thorough else 300)
+
     # ---- TruncatedLevyMeasure.integrate with the clipping branch active (a, b outside / straddling [l, r], b < l, r < a)
     from rpylib.model.levymodel.levymodel import TruncatedLevyMeasure
     clip_cases = []
@@ -235,9 +267,11 @@ def correspond(res):
     _param_pairs(res, rng, viol)
     _copula_3d(res, rng, viol)
     groups.append(_table_chain_group(res, rng, viol, 4 if not thorough else 30))
+    groups.append(_table_chain_nd_group(res, rng, viol, 3, 4 if not thorough else 20))
+    groups.append(_table_chain_nd_group(res, rng, viol, 2, 6 if not thorough else 40))
 
-    header = ("From Coq Require Import ZArith QArith Qabs List Bool.\nFrom RV Require Import Base.QB Model.Grid Gen.GenC01Trunc Model.Chain.\n"
-              "Open Scope Q_scope.")
+    header = ("From Coq Require Import ZArith QArith Qabs List Bool.\nFrom RV Require Import Base.QB Model.Grid Gen.GenC01Trunc Model.Chain "
+              "Model.Chain3d.\nOpen Scope Q_scope.")
     res.case_lemmas += len(groups)
     for gname, ty, chk, cases in groups:
         if not cases:
@@ -248,6 +282,98 @@ def correspond(res):
             res.broke(f"correspondence {gname}", f"model and implementation differ on {len(bad)} case(s), first: {cases[bad[0]][:1500]}")
         else:
             res.case_ok += 1
+
+
+def _huffman_leaves(head):
+    """leaf probabilities of the Huffman tree the factory built from create_q_vector / create_vec_jump_matrix: {state index: p}"""
+    out, stack = {}, [head]
+    while stack:
+        nd = stack.pop()
+        if nd.is_leaf:
+            out[int(nd.state)] = float(nd.value)
+        else:
+            stack += [nd.left_node, nd.right_node]
+    return out
+
+
+def _reuse_stream_1d(res, rng, viol, q_cases, n_objects):
+    """ONE grid object serves a chain, is refined IN PLACE, serves the next chain, ... (1..3 refinements): either directly
+    (MarkovChainProcess on the same object after grid.refine()) or through a real CouplingMarkovChain whose next_level does the
+    refinement (MLMC pattern), with the INVERSION sampler and with the non-INVERSION rate paths of create_sampling_method
+    (HUFFMANNTREE, BINARYSEARCHTREE: create_q_vector -> create_vec_jump_matrix -> tree; BINARYSEARCHTREEADAPTED1D).  At every
+    level: create_q_vector, compute_intensity_of_jumps, intensity_of_jumps -- exact, one Coq case (group qvec) per level, on
+    the axis the grid object has at that level -- and the sampler's own per-state probability where it is observable
+    (inversion: probability_to_jump_to_state; Huffman: the leaves of the tree) against the independent Fraction mass."""
+    from rpylib.distribution.samplingfactory import create_q_vector, compute_intensity_of_jumps
+    from rpylib.process.markovchain.markovchain import MarkovChainProcess
+    from rpylib.distribution.sampling import SamplingMethod
+    from stepmeasure import StepModel, random_step_measure, random_dyadic_axis, make_grid, step_spec
+    from props.C03 import build_coupling_1d
+    import warnings
+    for it in range(n_objects):
+        h = Fr(rng.choice([1, 1, 2, 3]), rng.choice([2, 4, 8]))
+        axis, o = random_dyadic_axis(rng, rng.randrange(1, 6), rng.randrange(1, 6), h)
+        grid = make_grid(axis, o, h)
+        axis0 = [Fr(float(x)) for x in grid.axes[0]]
+        nu = random_step_measure(rng, axis0[0], axis0[-1], bits=rng.choice([2, 3]), cover=True, zero_prob=0.0)
+        model = StepModel(nu, a=0.25, sigma=0.5)
+        how = rng.choice(["direct", "next_level"])
+        method = rng.choice(["INVERSION", "INVERSION", "HUFFMANNTREE", "BINARYSEARCHTREE", "BINARYSEARCHTREEADAPTED1D"])
+        n_ref = rng.choice([1, 2, 2, 3]) if len(axis0) <= 7 else rng.choice([1, 2])
+        base = dict(kind="reuse", measure=step_spec(nu), axis0=[float(x) for x in axis0], o0=o, h0=float(h), how=how, method=method)
+        coupling = None
+        for lvl in range(n_ref + 1):
+            ctx = dict(base, level=lvl)
+            try:
+                with warnings.catch_warnings():
+                    warnings.simplefilter("ignore")
+                    if how == "direct":
+                        chain = MarkovChainProcess(model=model, method=SamplingMethod[method], grid=grid)
+                    elif coupling is None:
+                        coupling, pms, product = build_coupling_1d(model, grid, method)
+                        chain = coupling.fine_process
+                    else:
+                        coupling.next_level(mc_paths=2, path_managers=pms, product=product)      # refines coupling.grid in place
+                        chain = coupling.fine_process
+                        if coupling.grid is not grid:
+                            res.broke("reuse stream", "CouplingMarkovChain.next_level no longer refines the grid object it was given")
+                    q = create_q_vector(chain.model.levy_triplet.nu, grid)
+                    lam = chain.intensity_of_jumps
+                    lam2 = compute_intensity_of_jumps(model=chain.model, grid=grid)
+            except Exception as e:  # noqa
+                viol(f"chain on a grid object refined in place raises {type(e).__name__}", reason=str(e)[:200], **ctx)
+                break
+            ax = grid.axes[0]
+            n, oo = len(ax), grid.origin_coordinate.value
+            ctx.update(axis=[float(x) for x in ax], o=oo, h=float(grid.h))
+            res.count(("reuse", it, lvl, how, method), kind=f"grid object re-used after refine in place ({how}, {method})")
+            res.bump("reuse_level", lvl)
+            res.bump("reuse_how_method", f"{how}/{method}")
+            if n != (len(axis0) - 1) * 2 ** lvl + 1 or oo != o * 2 ** lvl:
+                viol("the grid object does not have the axis of its refinement level", **ctx)
+                break
+            if lam != lam2:
+                viol("MarkovChainProcess.intensity_of_jumps differs from compute_intensity_of_jumps", **ctx)
+            step_oracle(res, viol, nu, ax, oo, q, lam, ctx)
+            q_cases.append(f"({ps_lit(nu)}, {axis_lit(ax)}, {natlit(oo)}, {lst([qlit(float(x)) for x in q])}, {qlit(float(lam))})")
+            # the sampler's own per-state probability (computed by the sampler, on the grid object it was given)
+            _, cells = independent_cells(ax, oo)
+            l, r = Fr(float(ax[0])), Fr(float(ax[-1]))
+            want = {k: float(nu.moment_q(max(c[0], l), min(c[1], r), 0)) for k, c in enumerate(cells) if c is not None}
+            got = None
+            if method == "INVERSION":
+                got = {k: float(chain.sampling.probability_to_jump_to_state(k - oo)) for k in want}
+            elif method == "HUFFMANNTREE":
+                got = _huffman_leaves(chain.sampling.head)
+                got = {k: got.get(k, 0.0) for k in want}
+            if got is not None:
+                for k in want:
+                    if abs(got[k] * lam - want[k]) > 1e-12 * lam:
+                        viol(f"{method} sampler's probability of a state is not (mass of the state's cell)/intensity on a grid object "
+                             "refined in place", state=k, got=got[k] * float(lam), want=want[k], **ctx)
+                        break
+            if how == "direct" and lvl < n_ref:
+                grid.refine()
 
 
 def _quad_mass(nu, lo, hi):
@@ -290,53 +416,59 @@ def _real_stream(res, rng, viol, scale):
             if fam in ("HEM", "MERTON", "VG") and rep == 0:
                 add("probstep", lambda: CTMCGridProbabilityStep(h=0.05, model=model, minimum_probability_step=0.1))
             for gname, grid in grids:
-                lv = rng.choice([0, 1])        # probability-step grids too: the refined grid's own middle (grid.h halved)
-                for _ in range(lv):
-                    grid.refine()
-                ctx = dict(kind="real", model=spec, grid=gname, h=float(grid.h), axis=[float(x) for x in grid.axes[0]],
-                           o=grid.origin_coordinate.value, levels=lv)
-                try:
-                    with warnings.catch_warnings():
-                        warnings.simplefilter("ignore")
-                        chain = build_chain(model, grid)
-                        q = create_q_vector(chain.model.levy_triplet.nu, grid)
-                except Exception as e:  # noqa
-                    viol(f"building the chain raises {type(e).__name__}", reason=str(e)[:200], **ctx)
-                    continue
-                lam = float(chain.intensity_of_jumps)
-                res.count(("real", fam, gname, ctx["h"], len(ctx["axis"]), rep), kind=f"{fam} on {gname}")
-                axis, o = grid.axes[0], ctx["o"]
-                n = len(axis)
-                if abs(float(np.sum(q)) - lam) > 1e-9 * max(lam, 1e-300):
-                    viol("reported intensity differs from the sum of the rates (real model, 1e-9 relative)", got=lam, want=float(np.sum(q)), **ctx)
-                if np.any(q < 0):
-                    viol("negative rate (real model)", **ctx)
-                # independent quadrature of the density on (at most 12) cells; ALL cells on probability-step grids, where the
-                # grid's own middle is not the arithmetic mid-point (sums telescope even with wrong mid-points: compare per state)
-                ks = [k for k in range(n) if k != o]
-                if len(ks) > 12 and gname != "probstep":
-                    ks = sorted(rng.sample(ks, 10) + [ks[0], ks[-1]])
-                prob = chain.sampling.probability_to_jump_to_state
-                for k in ks:
-                    lo = grid.middle(float(axis[max(0, k - 1)]), float(axis[k]))
-                    hi = grid.middle(float(axis[k]), float(axis[min(n - 1, k + 1)]))
-                    if not lo <= axis[k] <= hi:
-                        viol("a state lies outside its cell (real model)", state=k, **ctx)
-                        break
-                    with warnings.catch_warnings():
-                        warnings.simplefilter("ignore")
-                        want = _quad_mass(nu0, lo, hi)
-                    if abs(q[k] - want) > 1e-6 * max(abs(want), 1e-12) + 1e-10 * lam:
-                        viol("rate of a state differs from the quadrature of the model's own density over its cell", state=k,
-                             got=float(q[k]), want=float(want), cell=[float(lo), float(hi)], **ctx)
-                        break
-                    with warnings.catch_warnings():
-                        warnings.simplefilter("ignore")
-                        pk = float(prob(k - o))
-                    if abs(pk * lam - want) > 1e-6 * max(abs(want), 1e-12) + 1e-10 * lam:
-                        viol("inversion sampler's probability of a state is not (mass of the state's own cell)/intensity", state=k,
-                             got=pk * lam, want=float(want), cell=[float(lo), float(hi)], **ctx)
-                        break
+                # probability-step grids ALWAYS at level 0 and, the same object refined in place, at level 1 (the refined grid's own
+                # root-found middle, grid.h halved); the other grid types: one of {0}, {1} (refined before first use), {0, 1}
+                plan = [0, 1] if gname == "probstep" else rng.choice([[0], [1], [0, 1]])
+                cur = 0
+                for lv in plan:
+                    while cur < lv:
+                        grid.refine()
+                        cur += 1
+                    res.bump("real_grid_level", f"{gname} level {lv}" + (" (same object, used at level 0 before)" if plan == [0, 1] and lv == 1 else ""))
+                    ctx = dict(kind="real", model=spec, grid=gname, h=float(grid.h), axis=[float(x) for x in grid.axes[0]],
+                               o=grid.origin_coordinate.value, levels=lv)
+                    try:
+                        with warnings.catch_warnings():
+                            warnings.simplefilter("ignore")
+                            chain = build_chain(model, grid)
+                            q = create_q_vector(chain.model.levy_triplet.nu, grid)
+                    except Exception as e:  # noqa
+                        viol(f"building the chain raises {type(e).__name__}", reason=str(e)[:200], **ctx)
+                        continue
+                    lam = float(chain.intensity_of_jumps)
+                    res.count(("real", fam, gname, ctx["h"], len(ctx["axis"]), rep), kind=f"{fam} on {gname}")
+                    axis, o = grid.axes[0], ctx["o"]
+                    n = len(axis)
+                    if abs(float(np.sum(q)) - lam) > 1e-9 * max(lam, 1e-300):
+                        viol("reported intensity differs from the sum of the rates (real model, 1e-9 relative)", got=lam, want=float(np.sum(q)), **ctx)
+                    if np.any(q < 0):
+                        viol("negative rate (real model)", **ctx)
+                    # independent quadrature of the density on (at most 12) cells; ALL cells on probability-step grids, where the
+                    # grid's own middle is not the arithmetic mid-point (sums telescope even with wrong mid-points: compare per state)
+                    ks = [k for k in range(n) if k != o]
+                    if len(ks) > 12 and gname != "probstep":
+                        ks = sorted(rng.sample(ks, 10) + [ks[0], ks[-1]])
+                    prob = chain.sampling.probability_to_jump_to_state
+                    for k in ks:
+                        lo = grid.middle(float(axis[max(0, k - 1)]), float(axis[k]))
+                        hi = grid.middle(float(axis[k]), float(axis[min(n - 1, k + 1)]))
+                        if not lo <= axis[k] <= hi:
+                            viol("a state lies outside its cell (real model)", state=k, **ctx)
+                            break
+                        with warnings.catch_warnings():
+                            warnings.simplefilter("ignore")
+                            want = _quad_mass(nu0, lo, hi)
+                        if abs(q[k] - want) > 1e-6 * max(abs(want), 1e-12) + 1e-10 * lam:
+                            viol("rate of a state differs from the quadrature of the model's own density over its cell", state=k,
+                                 got=float(q[k]), want=float(want), cell=[float(lo), float(hi)], **ctx)
+                            break
+                        with warnings.catch_warnings():
+                            warnings.simplefilter("ignore")
+                            pk = float(prob(k - o))
+                        if abs(pk * lam - want) > 1e-6 * max(abs(want), 1e-12) + 1e-10 * lam:
+                            viol("inversion sampler's probability of a state is not (mass of the state's own cell)/intensity", state=k,
+                                 got=pk * lam, want=float(want), cell=[float(lo), float(hi)], **ctx)
+                            break
 
 
 def clayton_F(u, v, theta, eta):
@@ -597,6 +729,135 @@ def _table_chain_group(res, rng, viol, n_tables):
     return ("chain2d", "list (Q * Q * Q * Q * Q) * list Q * nat * Q * list (list Q)",
             "fun c => match c with (ps, xs, o, lam, m) => Qeq_bool (intensity2 amid (step_mass2 ps) xs xs o) lam && "
             "qll_eqb (q_matrix2 amid (step_mass2 ps) xs xs o) m && Qeq_bool (qsum2 (q_matrix2 amid (step_mass2 ps) xs xs o)) lam end", cases)
+
+
+def _table_chain_nd_group(res, rng, viol, dim, n_tables):
+    """dimension 2 and 3, exact: copula chains on d-dimensional density-table Levy copulas (harness/c01_table3.py) built through the
+    real MarkovChainLevyCopula on grids whose axes DIFFER (lengths equal, as the library's right_point needs): (i) CTMCGrid on
+    axes drawn independently from a pool of admissible axes, (ii) the real CTMCCredit constructor with a DIFFERENT level_a per name
+    (symmetric or not).  Each grid object is either refined before its first use, or USED, REFINED IN PLACE and USED AGAIN (the
+    CouplingMarkovChain.next_level pattern) -- every use is a case.  Observed: intensity_of_jumps, compute_intensity_of_jumps (the
+    3^d-1 boxes) and LevyCopulaModel.mass (_mass_2d / _mass_3d with all axis-straddling corrections) of EVERY non-origin cell, the
+    cell computed by the grid's own left_point / right_point / middle on CoordinateND (what probability_to_jump_to_state does), and the
+    inversion sampler's probability of every state.  Coq side: Model/Chain.v intensity2 / q_matrix2 resp. Model/Chain3d.v intensity3 /
+    q_tensor3 on the (different) axes, and the admissibility of every axis (hypotheses of C01_sum_rates_is_intensity_2d/_3d)."""
+    from rpylib.process.markovchain.markovchainlevycopula import MarkovChainLevyCopula
+    from rpylib.distribution.sampling import SamplingMethod
+    from rpylib.distribution.samplingfactory import compute_intensity_of_jumps
+    from rpylib.grid.spatial import CTMCGrid
+    from rpylib.grid.grid import Coordinates
+    from c01_table3 import TableN, WITNESS_TABLE3, random_table3, table_copula_model_nd, AXES5, AXES7
+    from props.C13 import build_credit
+    from props.C03 import WITNESS_TABLE
+    import itertools, warnings
+    cases = []
+    gname = f"chain{dim}d" if dim == 3 else "chain2d_axes"
+    tables = [TableN(WITNESS_TABLE3 if dim == 3 else WITNESS_TABLE, dim)] + [random_table3(rng, 2, dim) for _ in range(n_tables)]
+
+    def use(grid, table, model, ctx, tag):
+        """one chain on the grid object in its present state: oracle + one Coq case"""
+        axs = [[float(x) for x in a] for a in grid.axes]
+        o2 = grid.origin_coordinate.value[0]
+        n = len(axs[0])
+        ctx = dict(ctx, axes=axs, o=o2, use=tag)
+        try:
+            with warnings.catch_warnings():
+                warnings.simplefilter("ignore")
+                chain = MarkovChainLevyCopula(levy_copula_model=model, grid=grid, method=SamplingMethod.INVERSION)
+                lam = float(chain.intensity_of_jumps)
+                lam2 = float(compute_intensity_of_jumps(model=chain.model, grid=grid))
+                prob = chain.sampling.probability_to_jump_to_state
+                cells, rate = {}, {}
+                for idx in itertools.product(*[range(len(a)) for a in axs]):
+                    if idx == (o2,) * dim:
+                        continue
+                    st = Coordinates(list(idx))
+                    val = grid[st]
+                    lo, hi = grid.middle(grid.left_point(st), val), grid.middle(val, grid.right_point(st))
+                    cells[idx] = (lo, hi, val)
+                    rate[idx] = float(chain.model.mass(lo, hi))
+                    pk = float(prob(tuple(i - o2 for i in idx)))
+                    if abs(pk * lam - max(rate[idx], 0.0)) > 1e-12 * lam:
+                        viol(f"copula chain (d={dim}): inversion sampler's probability of a state is not (mass of the state's cell)/intensity",
+                             state=list(idx), got=pk * lam, want=rate[idx], **ctx)
+                        break
+        except Exception as e:  # noqa
+            viol(f"building the {dim}-d table-copula chain raises {type(e).__name__}", reason=str(e)[:200], **ctx)
+            return
+        res.count((gname, tag, json.dumps(ctx["table"]), tuple(map(tuple, axs))), kind=f"{dim}-d copula chain on a density table, unequal axes (exact)")
+        res.bump(f"{gname}_states_per_axis", n)
+        res.bump(f"{gname}_use", tag)
+        res.bump(f"{gname}_grid", ctx["grid"] + ("" if ctx["grid"] != "CTMCCredit" else (" symmetric" if ctx["symmetric"] else " one-sided")))
+        res.bump(f"{gname}_distinct_axes", len({tuple(a) for a in axs}))
+        # oracle on the implementation: the table's own integral over the cell recomputed from EACH axis in Fractions
+        tot = Fr(0)
+        for idx, (lo, hi, val) in cells.items():
+            got = rate[idx]
+            tot += Fr(got)
+            ilo = [(Fr(axs[d][max(0, k - 1)]) + Fr(axs[d][k])) / 2 for d, k in enumerate(idx)]
+            ihi = [(Fr(axs[d][k]) + Fr(axs[d][min(len(axs[d]) - 1, k + 1)])) / 2 for d, k in enumerate(idx)]
+            if got < 0:
+                viol(f"copula chain (d={dim}): negative rate", state=list(idx), got=got, **ctx)
+                break
+            if not all(l <= Fr(float(v)) <= h for l, v, h in zip(ilo, val, ihi)) or \
+                    [Fr(float(x)) for x in lo] != ilo or [Fr(float(x)) for x in hi] != ihi:
+                viol(f"copula chain (d={dim}): the cell of a state is not [middle(left neighbour, x), middle(x, right neighbour)] on its own axes",
+                     state=list(idx), cell=[list(map(float, lo)), list(map(float, hi))], **ctx)
+                break
+            if Fr(got) != table.mass_q(ilo, ihi):
+                viol(f"copula chain (d={dim}): rate of a state differs from the table's mass of its cell", state=list(idx), got=got,
+                     want=float(table.mass_q(ilo, ihi)), **ctx)
+                break
+        if lam != lam2 or Fr(lam) != tot:
+            viol(f"copula chain (d={dim}): reported intensity differs from the sum of the rates", got=lam, want=float(tot), **ctx)
+
+        def nest(prefix, d):
+            if d == dim:
+                return qlit(rate.get(prefix, 0.0))
+            return lst([nest(prefix + (k,), d + 1) for k in range(len(axs[d]))])
+        cases.append(f"({table.coq()}, " + ", ".join(lst([qlit(x) for x in a]) for a in axs) + f", {natlit(o2)}, {qlit(lam)}, {nest((), 0)})")
+
+    for t_i, table in enumerate(tables):
+        src = "credit" if t_i % 3 == 1 else "pool"
+        if src == "credit":
+            h = rng.choice([0.25, 0.125])
+            sym = rng.random() < 0.6
+            levels_a = rng.sample([-0.5, -0.75, -1.0, -1.25, -1.5], dim)
+            grid = build_credit(-2.0, 2.0, h, levels_a, sym)
+            ctx = dict(kind=f"table-chain{dim}d", grid="CTMCCredit", h=h, level_a=levels_a, symmetric=sym)
+        else:
+            pool = AXES5 if (t_i == 0 or dim == 3 and rng.random() < 0.6 or dim == 2 and rng.random() < 0.3) else AXES7
+            axes = [list(a) for a in rng.sample(pool, min(dim, len(pool)))]
+            o = axes[0].index(0.0)
+            grid = CTMCGrid(h=axes[0][o + 1], origin_coordinate=o, axes=[np.array(a) for a in axes])
+            ctx = dict(kind=f"table-chain{dim}d", grid="CTMCGrid")
+        ctx["table"] = [[str(v) for v in p] for p in table.pieces]
+        n0 = len(grid.axes[0])
+        mode = rng.choice(["fresh", "use-refine-use", "refine-first"]) if (n0 <= 5 or dim == 2) else "fresh"
+        if t_i == 0:
+            mode = "use-refine-use"
+        model = table_copula_model_nd(table)
+        if mode == "refine-first":
+            grid.refine()
+            use(grid, table, model, ctx, "refined before first use")
+        else:
+            use(grid, table, model, ctx, "level 0")
+            if mode == "use-refine-use":
+                grid.refine()      # in place, after the grid object has served a chain (q cells / sampler probabilities computed)
+                use(grid, table, table_copula_model_nd(table), ctx, "same grid object refined in place after use")
+    if dim == 3:
+        return (gname, "list (Q * Q * Q * Q * Q * Q * Q) * list Q * list Q * list Q * nat * Q * list (list (list Q))",
+                "fun c => match c with (ps, xs, ys, zs, o, lam, t) => "
+                "admissibleb xs o (nthq xs (o + 1)) && admissibleb ys o (nthq ys (o + 1)) && admissibleb zs o (nthq zs (o + 1)) && "
+                "forallb (fun p => Qle_bool 0 (dens3 p)) ps && "
+                "Qeq_bool (intensity3 amid (step_mass3 ps) xs ys zs o) lam && "
+                "qlll_eqb (q_tensor3 amid (step_mass3 ps) xs ys zs o) t && "
+                "Qeq_bool (qsum3 (q_tensor3 amid (step_mass3 ps) xs ys zs o)) lam end", cases)
+    return (gname, "list (Q * Q * Q * Q * Q) * list Q * list Q * nat * Q * list (list Q)",
+            "fun c => match c with (ps, xs, ys, o, lam, m) => "
+            "admissibleb xs o (nthq xs (o + 1)) && admissibleb ys o (nthq ys (o + 1)) && "
+            "Qeq_bool (intensity2 amid (step_mass2 ps) xs ys o) lam && "
+            "qll_eqb (q_matrix2 amid (step_mass2 ps) xs ys o) m && Qeq_bool (qsum2 (q_matrix2 amid (step_mass2 ps) xs ys o)) lam end", cases)
 
 
 def clayton_F_nd(us, theta, eta):
